@@ -90,12 +90,14 @@ TEXT = {
               'it decodes back to the values it was built from, and the smoothed RTT is never negative (hence never NaN) for every filter state.',
               COMMON_NOTE + ' Out of reach: the cadence inside the real housekeeping loop (two housekeeping periods) and "never non-finite" (Kalman stability over unbounded histories).',
               'deductive verification (Verus) + Kani complete harnesses on the real builders/decoders', 'DESIGN.md 8 C14'),
-    'C18': _t('PARTIAL. Verus proves on the real dispatch_inner (stdin entry point; serde_json, string trimming/comparison and handle_method as uninterpreted stubs): a blank line gets no response; an unparsable line gets exactly one response with code -32700, no result and a null id; '
-              'a wrong version gets -32600 echoing the id (none for a notification); a request with an id gets exactly one response echoing that id with either the handler\'s result or its error, never both; a notification gets none but the handler has been called exactly once before. '
-              'And on the real DynamicConfig (shared atomics SEQUENTIALISED into plain cells): the connection timeout stored by new / from_cli / set_conn_timeout_ms is always clamp(ms,1000,60000), the applied value is what is returned, '
-              'every snapshot shows a timeout in 1000..60000, every successful set_* is visible in the next snapshot and leaves the other settings alone; mode codec total and inverse.',
-              COMMON_NOTE + ' NOT covered (outside the verifiers): handle_method itself (method-name match, parameter type checks, -32601 / -32602), the socket entry point and its equivalence with stdin, concurrent setters/readers, JSON serialisation.',
-              'deductive verification (Verus) of the extracted envelope logic over uninterpreted JSON/string stubs; atomics sequentialised', 'DESIGN.md 8 C18'),
+    'C18': _t('Verus proves on the real dispatch_inner, dispatch (stdin) and dispatch_async (socket; async erased) over uninterpreted serde_json/string primitives: a blank line gets no response and changes nothing; an unparsable line gets exactly one response with code -32700, no result and a null id; '
+              'a wrong version gets -32600 echoing the id (none for a notification); a request with an id gets exactly one response echoing that id with either a result or an error, never both, carrying exactly the verdict of handle_method; a notification gets none but handle_method has been applied to it. '
+              'On the real handle_method / parse_mode (string match turned into an if-chain over a trusted str_eq, json! into a builder chain keeping keys and value expressions): unknown and subscription methods get -32601 and change nothing; missing or ill-typed parameters and unknown mode names get -32602 and change nothing; '
+              'a successful set_mode / set_quality / set_stall_deselect / set_conn_timeout changes exactly that setting in the snapshot, set_conn_timeout stores and echoes clamp(ms,1000,60000); get_status changes nothing and reports exactly the current snapshot; get_stats changes nothing and can only fail with -32603; '
+              'lemma: get_status after a successful set_conn_timeout shows the clamped value. The socket entry point satisfies the same envelope contract and the same handler verdict for every request except subscribe / unsubscribe / get_subscription_count on a connection with a subscription context. '
+              'On the real DynamicConfig (shared atomics SEQUENTIALISED into plain cells): the timeout stored by new / from_cli / set_conn_timeout_ms is always clamp(ms,1000,60000), every snapshot shows 1000..60000, each setter is visible in the next snapshot and leaves the other settings alone; mode codec total and inverse.',
+              COMMON_NOTE + ' Additional rule R20 (string-literal match -> if-chain, arm order kept). NOT covered: concurrent setters/readers (atomics sequentialised), serde_json itself (parsing, typed accessors, serialisation, Response::to_json), Display of SchedulingMode, the subscription handlers, control_socket.rs line framing.',
+              'deductive verification (Verus) of the extracted real functions over uninterpreted JSON/string stubs; atomics sequentialised', 'DESIGN.md 8 C18'),
     'C19': _t('Verus proves on the real analyze_ip_reload_text (string functions lines/trim/is_empty/IpAddr::from_str uninterpreted but deterministic): the reload is refused iff no line parses; the applied list is exactly the parsable lines in file order; '
               'Empty is reported iff there is no non-blank line; the first invalid line number is the first non-blank unparsable line. And on SequenceTracker::remove_connection: exactly the records of the removed link are purged, every other slot is untouched.',
               COMMON_NOTE + ' Out of reach: apply_connection_changes (async, creates sockets; survivors untouched / handle dropped / previous choice forgotten / each new address once) - not covered, stated.',
